@@ -963,3 +963,30 @@ mod tests {
         read_into_lender::<&RearCodedList>(&rcl);
     }
 }
+
+/// Verification hooks (add-only): public wrappers around the private kernels
+/// of this module.
+#[cfg(feature = "sux_verif")]
+pub mod verif {
+    pub fn strcpy<'a>(data: &'a [u8], result: &mut Vec<u8>) -> &'a [u8] {
+        super::strcpy(data, result)
+    }
+    pub fn strcmp(string: &[u8], data: &[u8]) -> core::cmp::Ordering {
+        super::strcmp(string, data)
+    }
+    pub fn strcmp_rust(string: &[u8], other: &[u8]) -> core::cmp::Ordering {
+        super::strcmp_rust(string, other)
+    }
+    pub fn longest_common_prefix(a: &[u8], b: &[u8]) -> (usize, core::cmp::Ordering) {
+        super::longest_common_prefix(a, b)
+    }
+    pub fn encode_int_len(value: usize) -> usize {
+        super::encode_int_len(value)
+    }
+    pub fn encode_int(value: usize, data: &mut Vec<u8>) {
+        super::encode_int(value, data)
+    }
+    pub fn decode_int(data: &[u8]) -> (usize, &[u8]) {
+        super::decode_int(data)
+    }
+}
